@@ -53,6 +53,8 @@ func (h handlerSpec) path() string {
 		return "/api/v1/verif/ep/none/registered"
 	case h.Kind == "meta-permissions":
 		return "/api/v1/auth/permissions"
+	case h.Kind == "meta-reset":
+		return "/api/v1/auth/reset"
 	}
 	panic("unknown handler kind " + h.Kind)
 }
@@ -71,6 +73,8 @@ func (h handlerSpec) declared() (rd, wr int) {
 		return pNotFound, pNotFound
 	case "meta-permissions":
 		return pDynamic, pNotSupported
+	case "meta-reset":
+		return pAnyone, pNotSupported
 	}
 	return h.Read, h.Write
 }
@@ -106,6 +110,7 @@ const (
 
 type world struct {
 	dev      bool
+	synced   string         // configured key value the key model was derived from
 	keys     map[string]tok // configured, unexpired keys
 	sessions map[string]*modelSession
 }
